@@ -504,8 +504,8 @@ def scalar_leaves(prog, t):
 
 
 def avoid_f23(prog):
-    """known finding F23 (keyed in C08's stub leg): a struct whose only scalar is an enum or an opaque pointer is passed as an aggregate by the
-    generated JS while rustc passes the scalar. On a real module the enum then arrives as a pointer value; such structs get a second scalar here."""
+    """(unused since F23 was repaired; kept for bisecting older trees) a struct whose only scalar is an enum or an opaque pointer used to be passed
+    as an aggregate by the generated JS while rustc passes the scalar; this gives such structs a second scalar."""
     for t in prog.types():
         if t.kind in ("struct", "outstruct"):
             leaves = scalar_leaves(prog, ("struct", t.name))
@@ -524,7 +524,7 @@ def run_js_program(seed, idx, tag, profile=None, ncalls=30, keep=False, rewrap=F
     prof.update(tooltier.AVOID.get("js", {}))
     prof.update(JS_E2E_PROFILE)
     prof.update(profile or {})
-    prog, sc = make_program(seed, idx, prof, ncalls, lang="js", prog_fix=avoid_f23)
+    prog, sc = make_program(seed, idx, prof, ncalls, lang="js")
     return run_js_prepared(prog, sc, idx, tag, keep=keep, rewrap=rewrap)
 
 
